@@ -113,7 +113,7 @@ theorem lb_all {s : State} (hl : LRI s) (hs : Safe s) {t : Nat} {k : ScanK} {h i
     rcases List.mem_append.1 hx with hx | hx
     · cases hm : m with
       | none => rw [hnone hm] at hx; simp at hx
-      | some v => subst hm; have := hlb v rfl x hx; have := omin_le_left (m := some v) (v := s.cur r) rfl; simp only [State.core] at *; omega
+      | some v => subst hm; have := (hlb v rfl).1 x hx; have := omin_le_left (m := some v) (v := s.cur r) rfl; simp only [State.core] at *; omega
     · simp at hx; subst hx; exact omin_le_right _ _
   intro x hx
   simp only [Core.pub, State.core] at hx
